@@ -290,7 +290,7 @@ func ruleP18Format(p *Prog, r *Report) {
 			ok = true
 			for _, ret := range returnsOf(cl) {
 				c, _ := callOf(retResult(ret, 0))
-				if c == nil || staticCallee(c) == nil || fnBase(staticCallee(c)) != "FormatAndRestore" || strip(c.Common().Args[1]) != ssa.Value(cl.Params[0]) {
+				if c == nil || staticCallee(c) == nil || fnBase(staticCallee(c)) != "FormatAndRestore" || len(cl.Params) == 0 || strip(c.Common().Args[1]) != ssa.Value(cl.Params[len(cl.Params)-1]) {
 					ok = false
 				}
 			}
